@@ -95,6 +95,17 @@ def gen_containers(tier):
                     yield {"k": "container", "base": name, "wb": wb, "fmt": fmt, "ch": ch, "explicit": explicit}
 
 
+def gen_paths(tier):
+    """a path whose suffix is not one of the lower-case supported ones still supplies the form id from its stem"""
+    forms = base_forms(tier)[: (4 if tier == "quick" else 12)]
+    for name, wb in forms:
+        for fmt in ("md", "csv", "xls", "xlsx"):
+            for suffix in (f".{fmt.upper()}", ".txt", "", ".data"):
+                for ch in ("path_str", "path_like"):
+                    for explicit in (True, False):
+                        yield {"k": "container", "base": name, "wb": wb, "fmt": fmt, "ch": ch, "explicit": explicit, "suffix": suffix}
+
+
 TYPED_WB = {
     "survey": [
         {"type": "integer", "name": "a", "label": "A", "default": "5", "required": "TRUE"},
@@ -169,7 +180,7 @@ def gen_shape(tier):
             yield {"k": "sheetcase", "fmt": fmt, "case": case_kind}
 
 
-SPACE = GenSpace({"typed": gen_typed, "textnoise": gen_text_noise, "shape": gen_shape, "containers": gen_containers}, chunk=120)
+SPACE = GenSpace({"typed": gen_typed, "textnoise": gen_text_noise, "shape": gen_shape, "containers": gen_containers, "paths": gen_paths}, chunk=120)
 blocks = SPACE.blocks
 expand = SPACE.expand
 _BASES = {}
@@ -186,7 +197,7 @@ def required_outcomes(tier):
 
 
 # ---------------------------------------------------------------- execution ----------
-def deliver(src, fmt, ch, explicit, stem="stemX"):
+def deliver(src, fmt, ch, explicit, stem="stemX", suffix=None):
     """-> (argument for convert, kwargs, cleanup callable)"""
     fmt = fmt.split("-")[0]
     kw = {"file_type": "." + fmt} if explicit else {}
@@ -197,7 +208,7 @@ def deliver(src, fmt, ch, explicit, stem="stemX"):
         return data, kw, None
     if ch == "BytesIO":
         return io.BytesIO(data), kw, None
-    p = os.path.join(tmpdir(), f"{stem}.{fmt}")
+    p = os.path.join(tmpdir(), f"{stem}.{fmt}" if suffix is None else f"{stem}{suffix}")
     with open(p, "wb") as f:
         f.write(data)
     if ch == "file":
@@ -250,8 +261,8 @@ def check_one(case):
         ref_wb = with_headers(wb)
         if case["ch"].startswith("path"):
             ref_wb["fallback_form_name"] = "stemX"
-        arg, kw, cleanup = deliver(src, fmt, case["ch"], case["explicit"])
-        sig = f"container:{fmt}:{case['ch']}:{'explicit' if case['explicit'] else 'implicit'}"
+        arg, kw, cleanup = deliver(src, fmt, case["ch"], case["explicit"], suffix=case.get("suffix"))
+        sig = f"container:{fmt}:{case['ch']}:{'explicit' if case['explicit'] else 'implicit'}" + (":odd-suffix" if case.get("suffix") is not None else "")
     elif k == "typed":
         cells = typed_cells()
         wb = TYPED_WB
